@@ -76,3 +76,36 @@ def finding_keys(rep):
     for k, (_, c) in rep.known_hits.items():
         cnt[k] += c
     return dict(sorted(cnt.items()))
+
+
+def enumerate_sharded(prop, module, cfg, nshards, env=None, timeout=1500):
+    """the same enumerating spec run as `nshards` parallel TLC processes; the spec restricts its initial states to
+    the shapes whose code is congruent to IOEnv.SHARD modulo IOEnv.NSHARDS.  Returns (cases, states, wall)."""
+    import concurrent.futures
+    import time
+    mod = os.path.join(vlib.SPEC, "props", module)
+    cfgp = os.path.join(vlib.SPEC, "props", cfg)
+    t0 = time.time()
+
+    def one(i):
+        e = {"SHARD": str(i), "NSHARDS": str(nshards)}
+        if env:
+            e.update(env)
+        md = os.path.join(vlib.WORK, "_meta", "%s_%d_s%d" % (module[:-4], os.getpid(), i))
+        res = vlib.tlc(mod, cfg=cfgp, env=e, timeout=timeout, workers=1, metadir=md)
+        vlib.tlc_ok(res, "%s shard %d" % (module, i))
+        return res.cases(), res.distinct
+
+    with concurrent.futures.ThreadPoolExecutor(max_workers=nshards) as ex:
+        parts = list(ex.map(one, range(nshards)))
+    cases = [c for p, _ in parts for c in p]
+    states = sum(n for _, n in parts)
+    if not cases:
+        raise vlib.ToolError("%s produced no cases" % module)
+    ids = [c["id"] for c in cases]
+    if len(set(ids)) != len(ids):
+        raise vlib.ToolError("%s produced duplicate case ids" % module)
+    if states != len(cases):
+        raise vlib.ToolError("%s: %d states but %d cases" % (module, states, len(cases)))
+    cases.sort(key=lambda c: c["id"])
+    return cases, states, time.time() - t0
